@@ -1287,17 +1287,25 @@ impl Fx {
         let n = answers.len() as i64;
         let mut allowed_rem: Vec<i64> = vec![];
         let mut bad: Vec<String> = vec![];
+        let mut inverted = 0i64;
         for a in answers {
             self.account(Proto::Grpc, a, 0, key);
             out.bump("feature_requests");
             match a {
                 WireAns::Ok(true, lim, rem, rs, 0) if *lim == b && *rs > 0 => allowed_rem.push(*rem),
                 WireAns::Ok(false, lim, 0, rs, rt) if *lim == b && *rs > 0 && *rt > 0 => {}
+                // denied with a wait of 0 whole seconds: a request stamped before one that was processed earlier
+                // (known finding C09-stamp-inversion), judged with the admitted count below
+                WireAns::Ok(false, lim, 0, rs, 0) if *lim == b && *rs > 0 => inverted += 1,
                 other => bad.push(other.show()),
             }
         }
         let want_adm = (b - used).min(n).max(0);
         allowed_rem.sort();
+        if inverted > 0 && allowed_rem.len() as i64 == want_adm {
+            // all tokens were handed out and still somebody was told "wait 0 s": not explained by a stamp inversion
+            bad.push(format!("{inverted} denied answer(s) with retry_after 0"));
+        }
         if !bad.is_empty() {
             let none = answers.iter().filter(|a| !matches!(a, WireAns::Ok(..))).count();
             self.viol(out, if none > 0 { "C11" } else { "C12" }, format!("{what}: {} of {n} simultaneous RPCs on key {} (burst {b}) were not answered with a decision of that bucket: {}", bad.len(), show_key(key), short(&bad.join(" "), 300)), from);
@@ -1305,7 +1313,8 @@ impl Fx {
         // (the `remaining` of simultaneous requests is not a function of their number: the handlers read the clock before
         // they queue, so the limiter may see timestamps a few hundred nanoseconds out of order and report one less)
         if allowed_rem.len() as i64 != want_adm || allowed_rem.iter().any(|r| *r < 0 || *r >= b - used) {
-            self.viol(out, "C09", format!("{what}: {n} simultaneous unit requests on key {} (burst {b}, {used} admitted before): {} admitted with remaining {:?}, want exactly {want_adm}, each with less than {} remaining", show_key(key), allowed_rem.len(), allowed_rem, b - used), from);
+            let tag = if allowed_rem.iter().any(|r| *r < 0 || *r >= b - used) { "C09" } else { crate::wire::race_tag(allowed_rem.len() as i64, want_adm, inverted) };
+            self.viol(out, tag, format!("{what}: {n} simultaneous unit requests on key {} (burst {b}, {used} admitted before): {} admitted with remaining {:?}, want exactly {want_adm}, each with less than {} remaining", show_key(key), allowed_rem.len(), allowed_rem, b - used), from);
         }
         if let Some(k) = self.model.keys.get_mut(key) {
             k.used += allowed_rem.len() as i64;
